@@ -142,7 +142,7 @@ def eof_fallback(report, rid, db, cg):
         raise AnalysisError('PlayingStatusReactor.handle_exception vanished')
     g = cfg_of(fi)
     tests = [n for n in g.reachable_nodes() if n.kind == 'test']
-    exc = fi.params[1]
+    exc = fi.all_params[1]
     iso = [n for n in tests if isinstance(n.ast, ast.Call)
            and isinstance(n.ast.func, ast.Name)
            and n.ast.func.id == 'isinstance' and len(n.ast.args) == 2
@@ -212,7 +212,7 @@ def eof_fallback(report, rid, db, cg):
 def reactor_arms(fi):
     """{packet_name literal: (test expr, body statements)} of the if/elif
     chain on `packet.packet_name == "<name>"` in a react method."""
-    pk = fi.params[1]
+    pk = fi.all_params[1]
     arms = {}
 
     def visit(stmts):
@@ -311,7 +311,7 @@ def name_agreement(report, rid, db, P, reactor_ci, state, M=None):
     if fi is None:
         raise AnalysisError('%s.react vanished' % reactor_ci.qualname)
     arms = reactor_arms(fi)
-    pk = fi.params[1]
+    pk = fi.all_params[1]
     names = {}
     for v in P.supported:
         t = P.table('clientbound', state, v)
@@ -461,7 +461,7 @@ def field_completeness(report, rid, db, cg, P, M, fi):
                             for x in ast.walk(st):
                                 if isinstance(x, ast.Attribute) and \
                                         isinstance(x.value, ast.Name) and \
-                                        x.value.id == wr.params[0] and \
+                                        x.value.id == wr.all_params[0] and \
                                         x.attr != 'context':
                                     need.add(x.attr)
                 for f in need:
@@ -795,7 +795,7 @@ def name_agreement_ps(report, rid, db, P, S, reactor_ci, state):
     fi = db.own_method(reactor_ci, 'react')
     if fi is None:
         raise AnalysisError('%s.react vanished' % reactor_ci.qualname)
-    pk = ('sym', fi.params[1])
+    pk = ('sym', fi.all_params[1])
     paths = S.run(fi)
     names = {}
     for v in P.supported:
@@ -924,7 +924,7 @@ def needed_fields(P, db, ci, v, S=None, obj=None, fields=None):
                 for x in ast.walk(st):
                     if isinstance(x, ast.Attribute) and isinstance(
                             x.value, ast.Name) and \
-                            x.value.id == wr.params[0] and \
+                            x.value.id == wr.all_params[0] and \
                             x.attr != 'context':
                         need.add(x.attr)
     return need
@@ -980,7 +980,7 @@ def eof_fallback_ps(report, rid, db, S, others_too=True):
     if fi is None:
         raise AnalysisError('PlayingStatusReactor.handle_exception vanished')
     disconnect = db.own_method(conn, 'disconnect')
-    exc = ('sym', fi.params[1])
+    exc = ('sym', fi.all_params[1])
     handled = 0
     for p in S.run(fi, exact_self=ci):
         tests = [(a, pol) for a, pol, _ in p.conds if a[1] == 'isinstance'
@@ -1195,7 +1195,7 @@ def wrapper_passthrough_ps(report, rid, db, S=None):
         for (b, a), v in heap.items():
             if struct(b) == struct(me) and struct(v) in params:
                 fld[a] = params[struct(v)]
-        endpoint = init.params[1] if len(init.params) > 1 else None
+        endpoint = init.all_params[1] if len(init.params) > 1 else None
         for mname, (cipher_param, under_meth, direction) in sorted(
                 meths.items()):
             fi = db.find_method(ci, mname)
@@ -1276,7 +1276,7 @@ def fresh_connection_state(report, R, db, S, M, want):
     calling disconnect() first, which the library allows.)"""
     from .pathsum import struct, show
     cn = M.conn_method('_connect')
-    me = ('sym', cn.params[0])
+    me = ('sym', cn.all_params[0])
     opts = ('attr', me, 'options')
     paths = [p for p in S.run(cn) if p.returns]
     if not paths:
@@ -1327,7 +1327,7 @@ def context_imposed(report, R, db, S, M):
     is sent on."""
     from .pathsum import struct, show
     wp = M.conn_method('write_packet')
-    me, pk = ('sym', wp.params[0]), ('sym', wp.params[1])
+    me, pk = ('sym', wp.all_params[0]), ('sym', wp.all_params[1])
     ctx = ('attr', me, 'context')
     inner = M.conn_method('_write_packet')
     n = 0
@@ -1366,7 +1366,7 @@ def forced_write_is_synchronous(report, R, db, S, M):
     from .pathsum import struct
     wp = M.conn_method('write_packet')
     inner = M.conn_method('_write_packet')
-    me, pk = ('sym', wp.params[0]), ('sym', wp.params[1])
+    me, pk = ('sym', wp.all_params[0]), ('sym', wp.all_params[1])
     if 'force' not in wp.params:
         raise AnalysisError('write_packet lost its force parameter', wp.node,
                             rel(wp.path))
@@ -1482,7 +1482,7 @@ def shared_state_mutations(db, fi):
         elif isinstance(x, ast.alias):
             local.add((x.asname or x.name).split('.')[0])
     local -= glob
-    first = fi.params[0] if fi.params else None
+    first = fi.all_params[0] if fi.params else None
 
     def shared_def(e):
         """the defining expression of a module-/class-level object `e`
@@ -1722,7 +1722,7 @@ def switch_is_quiet(report, R, db, S, M, cg, fi, paths, arm, is_switch,
     if len(writers) < 3:
         raise AnalysisError('fewer than three Connection methods reach '
                             '_write_packet', fi.node, rel(fi.path))
-    pk = ('sym', fi.params[1])
+    pk = ('sym', fi.all_params[1])
     n = 0
     for p in paths:
         if arm_of(p, pk) != arm:
@@ -1978,7 +1978,7 @@ def compression_arms(report, R, db, S, M):
         fi = db.own_method(rc, 'react')
         if fi is None:
             continue
-        me, pk = ('sym', fi.params[0]), ('sym', fi.params[1])
+        me, pk = ('sym', fi.all_params[0]), ('sym', fi.all_params[1])
         opts = ('attr', ('attr', me, 'connection'), 'options')
         for p in S.run(fi):
             if arm_of(p, pk) != 'set compression' or not p.returns and \
@@ -2057,8 +2057,8 @@ def decorator_form(report, R, db, S, M, outer_name, reg_name, option_keys):
                         % (len(regs), p.cond_text()))
             continue
         e = regs[0]
-        args = [a for a in e.args if struct(a) != sy(lst.params[0])]
-        if not args or struct(args[0]) != sy(dec.params[0]):
+        args = [a for a in e.args if struct(a) != sy(lst.all_params[0])]
+        if not args or struct(args[0]) != sy(dec.all_params[0]):
             prob.append('the decorated function is not the handler that is '
                         'registered')
         if va and not any(a[0] == 'op' and a[1] == 'star' and
@@ -2083,7 +2083,7 @@ def decorator_form(report, R, db, S, M, outer_name, reg_name, option_keys):
                                     'not what the registration receives (%s)'
                                     % (k, show(v) if v is not None
                                        else 'nothing'))
-        if p.value is None or struct(p.value) != sy(dec.params[0]):
+        if p.value is None or struct(p.value) != sy(dec.all_params[0]):
             prob.append('the decorator does not return the function it '
                         'decorated')
     if not n:
